@@ -108,9 +108,12 @@ def rule_drain(ctx):
     repo = ctx.repo
     base = repo.cls("yowsup/layers/__init__.py", "YowLayer")
     n_loops = 0
+    from . import c05 as _c05
     for m, c, f in iter_functions(repo):
         if c is None or base not in repo.mro(c):
             continue
+        if c.name == _c05.CLS and m.relpath == _c05.FILE:
+            continue          # the segment reader is judged by symbolic execution below (whatever its loop looks like)
         if not any(isinstance(x, ast.While) for x in ast.walk(f)):
             continue
         from ..repo import inline_self_aliases
@@ -174,6 +177,9 @@ def rule_drain(ctx):
                       "an exception handler inside the loop resumes it (%s): a failing call that did not consume its element makes the loop spin forever%s" %
                       (fmt_path(resumed[0][1]) if resumed else "", ""),
                       "no handler resumes the loop: a failure leaves it (%d handler(s) inside)" % len(handlers))
+    n_loops += 1
+    repo.consulted.add(_c05.FILE)
+    _c05.drain_after_failure(ctx, "C12.drain")
     ctx.units["C12.delivery_loops"] = n_loops
 
 
